@@ -1,7 +1,10 @@
-(** C27 — when every delivered block is valid, the model of this property
-    makes exactly the moves of C25's chain-selection model (so C25's
-    convergence theorem speaks about it): the additions of C27 — body table,
-    error marks, deletion from the index — are inert without invalid blocks. *)
+(** C27 — when every delivered block is valid and the heights are consistent
+    along the parent links, the model of this property makes exactly the moves
+    of C25's chain-selection model (so C25's convergence theorem speaks about
+    it): the additions of C27 — body table, error marks, deletion from the
+    index — are inert without invalid blocks.  (Heights: C25's model of
+    ProcessOrphans stops at an orphan with a wrong height, the repaired code
+    and this model go on; with consistent heights neither ever refuses one.) *)
 From Coq Require Import List ZArith NArith Bool Lia.
 From C33 Require Import C27.Model C27.Proofs.
 Import ListNotations.
@@ -75,10 +78,25 @@ Proof.
   destruct (N.eqb h k); [discriminate | exact IH].
 Qed.
 
+(** heights consistent along parent links (boolean, over a list of blocks) *)
+Definition hconsb (BL : list block) : bool :=
+  forallb (fun a => forallb (fun b => negb (N.eqb (bpar a) (bid b)) || (bht a =? bht b + 1)) BL) BL.
+
+Lemma hconsb_spec : forall BL, hconsb BL = true ->
+  forall a b, In a BL -> In b BL -> bpar a = bid b -> bht a = bht b + 1.
+Proof.
+  intros BL H a b Ha Hb E. unfold hconsb in H. rewrite forallb_forall in H. specialize (H a Ha).
+  rewrite forallb_forall in H. specialize (H b Hb). rewrite E, N.eqb_refl in H. simpl in H.
+  apply Z.eqb_eq in H. exact H.
+Qed.
+
 Section Refine.
 Variable verr : N -> N -> N.
 Variable g : block.
 Hypothesis Hroot : verr (bid g) 0 = 0%N.
+Variable BL : list block.
+Hypothesis HgBL : In g BL.
+Hypothesis Hcons : forall a b, In a BL -> In b BL -> bpar a = bid b -> bht a = bht b + 1.
 
 Definition ivalid (i : item) : Prop := verr (ihash i) (ibody i) = 0%N.
 
@@ -88,7 +106,10 @@ Record Good (vs : vstate) : Prop := mkGood {
   g_root   : vmain vs <> [] /\ last (vmain vs) 0%N = bid g;
   g_orph   : forall o, In o (vorph vs) -> ivalid o;
   g_store  : forall h b, In (h, b) (vstore vs) -> verr h b = 0%N;
-  g_has    : forall n, In n (vidx vs) -> sget (vid n) (vstore vs) <> None
+  g_has    : forall n, In n (vidx vs) -> sget (vid n) (vstore vs) <> None;
+  g_main   : forall h, In h (vmain vs) -> in_vidx h (vidx vs) = true;
+  g_blk    : forall n, In n (vidx vs) -> In (vblk n) BL;
+  g_orphB  : forall o, In o (vorph vs) -> In (iblk o) BL
 }.
 
 Record Sim (vs : vstate) (s : state) : Prop := mkSim {
@@ -98,11 +119,7 @@ Record Sim (vs : vstate) (s : state) : Prop := mkSim {
 }.
 
 Inductive erel : verrc -> errc -> Prop :=
-| er_none : erel VNone ENone | er_exist : erel VExist EExist | er_parent : erel VParent EParent
-| er_height : erel VHeight EHeight | er_td : erel VTd ETd | er_fuel : erel VFuel EFuel.
-
-Ltac triv HG HS :=
-  simpl; split; [exact HG | split; [exact HS | split; [reflexivity | constructor]]].
+| er_none : erel VNone ENone | er_fuel : erel VFuel EFuel.
 
 Lemma sim_tip : forall vs s, Sim vs s -> tip s = vtip vs.
 Proof. intros vs s [_ _ M]. unfold tip, vtip. rewrite M. reflexivity. Qed.
@@ -159,33 +176,50 @@ Proof.
 Qed.
 
 Lemma Good_connect : forall vs h body,
-  Good vs -> verr h body = 0%N ->
+  Good vs -> verr h body = 0%N -> in_vidx h (vidx vs) = true ->
   Good (mkV (vidx vs) (vorph vs) (h :: vmain vs) ((h, body) :: vstore vs)).
 Proof.
-  intros vs h body [A B [C1 C2] D E F] Hv. constructor; simpl; auto.
+  intros vs h body [A B [C1 C2] D E F G1 G2 G3] Hv Hin. constructor; simpl; auto.
   - split; [discriminate|]. destruct (vmain vs) as [|x l]; [contradiction | exact C2].
   - intros k b [H|H]; [inversion H; subst; exact Hv | apply E; exact H].
   - intros n Hn. apply (sget_app_some (vid n) [(h, body)]). apply F; exact Hn.
+  - intros k [H|H]; [subst k; exact Hin | apply G1; exact H].
 Qed.
+
+Lemma good_tip_indexed : forall vs, Good vs -> exists t, find_vnode (vtip vs) (vidx vs) = Some t.
+Proof.
+  intros vs HG. pose proof (g_root vs HG) as [R1 _]. pose proof (g_main vs HG) as M.
+  unfold vtip. destruct (vmain vs) as [|x l]; [contradiction|]. simpl.
+  specialize (M x (or_introl eq_refl)). unfold in_vidx in M.
+  destruct (find_vnode x (vidx vs)) as [t|]; [exists t; reflexivity | discriminate].
+Qed.
+
+(** what one acceptance yields in a world of valid blocks *)
+Definition ok_code (e : verrc) : Prop := e = VNone \/ e = VFuel.
+
+Ltac triv HG HS :=
+  simpl; split; [exact HG | split; [exact HS | split; [reflexivity | split; [constructor |
+    split; [first [left; reflexivity | right; reflexivity] | split; reflexivity]]]]].
 
 Lemma vconnect_best_sim : forall fin vs s b td body,
   Good vs -> Sim vs s -> verr (bid b) body = 0%N -> in_vidx (bid b) (vidx vs) = true ->
   let r1 := vconnect_best verr fin vs b td body in
   let r2 := connect_best fin s b td in
   Good (fst (fst r1)) /\ Sim (fst (fst r1)) (fst (fst r2))
-  /\ snd (fst r1) = snd (fst r2) /\ erel (snd r1) (snd r2).
+  /\ snd (fst r1) = snd (fst r2) /\ erel (snd r1) (snd r2)
+  /\ ok_code (snd r1) /\ vidx (fst (fst r1)) = vidx vs /\ vorph (fst (fst r1)) = vorph vs.
 Proof.
   intros fin vs s b td body HG HS Hv Hin. cbv zeta.
   unfold vconnect_best, connect_best. rewrite (sim_tip vs s HS).
   destruct (N.eqb (bpar b) (vtip vs)).
   - unfold connect_block. rewrite Hv. simpl.
-    split; [apply Good_connect; assumption|]. split; [|split; [reflexivity | constructor]].
+    split; [apply Good_connect; assumption|].
+    split; [|split; [reflexivity | split; [constructor | split; [left; reflexivity | split; reflexivity]]]].
     destruct HS as [A B C]. constructor; simpl; [exact A | exact B | rewrite C; reflexivity].
   - pose proof HS as [SA SB SC]. rewrite SA, find_proj.
-    destruct (find_vnode (vtip vs) (vidx vs)) as [t|]; simpl option_map; cbv iota.
-    2:{ triv HG HS. }
+    destruct (good_tip_indexed vs HG) as [t Ft]. rewrite Ft. simpl option_map. cbv iota.
     simpl ntd.
-    pose proof HG as [GA GB [GC1 GC2] GD GE GF].
+    pose proof HG as [GA GB [GC1 GC2] GD GE GF GM GK GO].
     assert (Hr : In (bid g) (vmain vs)).
     { rewrite <- GC2. destruct (vmain vs) as [|x l]; [contradiction|]. apply (@exists_last _ (x :: l)) in GC1 as [l' [a E]].
       rewrite E. rewrite last_last. apply in_or_app. right. left. reflexivity. }
@@ -209,33 +243,45 @@ Proof.
       rewrite attach_valid by exact Hlp. simpl.
       rewrite L2, rev_involutive.
       destruct (drop_until_last fk (vmain vs) 0%N Hfk) as [D1 D2].
-      split; [|split; [constructor; simpl; auto | split; [reflexivity | constructor]]].
-      constructor; simpl; auto.
+      split; [|split; [constructor; simpl; auto | split; [reflexivity | split; [constructor |
+               split; [left; reflexivity | split; reflexivity]]]]].
+      constructor; simpl.
+      * exact GA.
+      * exact GB.
       * split; [intro E; apply app_eq_nil in E; destruct E as [_ E]; contradiction|].
         rewrite last_app_ne by exact D1. rewrite D2. exact GC2.
+      * exact GD.
       * intros h x Hx. apply in_app_or in Hx. destruct Hx as [Hx|Hx]; [apply Hlp; apply in_rev; exact Hx | apply GE; exact Hx].
       * intros n Hn. apply sget_app_some. apply GF; exact Hn.
+      * intros h Hh. apply in_app_or in Hh. destruct Hh as [Hh|Hh]; [apply Hp; exact Hh | apply GM; eapply drop_until_in; exact Hh].
+      * exact GK.
+      * exact GO.
 Qed.
 
 Lemma vaccept_sim : forall fin vs s i,
-  Good vs -> Sim vs s -> ivalid i ->
+  Good vs -> Sim vs s -> ivalid i -> In (iblk i) BL -> in_vidx (bpar (iblk i)) (vidx vs) = true ->
   let r1 := vaccept verr fin vs i in
   let r2 := accept fin s (iblk i) in
   Good (fst (fst r1)) /\ Sim (fst (fst r1)) (fst (fst r2))
-  /\ snd (fst r1) = snd (fst r2) /\ erel (snd r1) (snd r2).
+  /\ snd (fst r1) = snd (fst r2) /\ erel (snd r1) (snd r2)
+  /\ ok_code (snd r1)
+  /\ (exists nd, vidx (fst (fst r1)) = nd :: vidx vs /\ vid nd = ihash i)
+  /\ vorph (fst (fst r1)) = vorph vs.
 Proof.
-  intros fin vs s i HG HS Hv. cbv zeta. unfold vaccept, accept.
+  intros fin vs s i HG HS Hv HiB Hpar. cbv zeta. unfold vaccept, accept.
   pose proof HS as [SA SB SC]. rewrite SA, find_proj.
-  destruct (find_vnode (bpar (iblk i)) (vidx vs)) as [p|] eqn:Fp; simpl option_map; cbv iota.
-  2:{ triv HG HS. }
-  simpl nblk. simpl ntd.
-  destruct (negb (bht (iblk i) =? bht (vblk p) + 1)).
-  { triv HG HS. }
+  unfold in_vidx in Hpar.
+  destruct (find_vnode (bpar (iblk i)) (vidx vs)) as [p|] eqn:Fp; [|discriminate].
+  simpl option_map. cbv iota. simpl nblk. simpl ntd.
+  destruct (find_vnode_some _ _ _ Fp) as [Hp Hpv].
+  assert (Hh : bht (iblk i) = bht (vblk p) + 1).
+  { apply Hcons; [exact HiB | apply (g_blk vs HG); exact Hp | symmetry; exact Hpv]. }
+  rewrite Hh, Z.eqb_refl. simpl negb. cbv iota.
   set (nd := mkVN (iblk i) (vtd p + bdiff (iblk i)) false (is_down (ipath i)) false).
   set (vs1 := mkV (nd :: vidx vs) (vorph vs) (vmain vs) (maybe_store (bid (iblk i)) (ibody i) (vstore vs))).
   set (s1 := mkS (mkN (iblk i) (vtd p + bdiff (iblk i)) :: map nproj (vidx vs)) (orph s) (main s) (evs s)).
-  apply (vconnect_best_sim fin vs1 s1 (iblk i) (vtd p + bdiff (iblk i)) (ibody i)).
-  - destruct HG as [GA GB GC GD GE GF]. constructor; simpl; auto.
+  destruct (vconnect_best_sim fin vs1 s1 (iblk i) (vtd p + bdiff (iblk i)) (ibody i)) as [R1 [R2 [R3 [R4 [R5 [R6 R7]]]]]].
+  - destruct HG as [GA GB GC GD GE GF GM GK GO]. constructor; simpl; auto.
     + intros n [Hn|Hn]; [subst n; reflexivity | apply GA; exact Hn].
     + intros n [Hn|Hn].
       * subst n. right. simpl. apply in_vidx_cons_mono. unfold in_vidx. rewrite Fp. reflexivity.
@@ -247,47 +293,69 @@ Proof.
         -- rewrite (maybe_store_has _ _ _ E). discriminate.
       * specialize (GF n Hn). destruct (sget (vid n) (vstore vs)) as [x|] eqn:E; [|contradiction].
         rewrite (maybe_store_keep _ _ _ _ _ E). discriminate.
+    + intros h Hh'. apply in_vidx_cons_mono. apply GM; exact Hh'.
+    + intros n [Hn|Hn]; [subst n; exact HiB | apply GK; exact Hn].
   - constructor; simpl; auto.
   - exact Hv.
   - simpl. unfold in_vidx, find_vnode. simpl. unfold vid at 1. simpl. rewrite N.eqb_refl. reflexivity.
+  - split; [exact R1|]. split; [exact R2|]. split; [exact R3|]. split; [exact R4|]. split; [exact R5|].
+    split; [exists nd; split; [exact R6 | reflexivity] | exact R7].
 Qed.
 
 Lemma Good_set_orph : forall vs o,
-  Good vs -> (forall x, In x o -> ivalid x) -> Good (mkV (vidx vs) o (vmain vs) (vstore vs)).
-Proof. intros vs o [A B C D E F] H. constructor; simpl; auto. Qed.
+  Good vs -> (forall x, In x o -> ivalid x /\ In (iblk x) BL) -> Good (mkV (vidx vs) o (vmain vs) (vstore vs)).
+Proof.
+  intros vs o [A B C D E F G1 G2 G3] H. constructor; simpl; auto.
+  - intros x Hx. apply H; exact Hx.
+  - intros x Hx. apply H; exact Hx.
+Qed.
 
 Lemma vporph_sim : forall fuel fin q vs s,
-  Good vs -> Sim vs s ->
+  Good vs -> Sim vs s -> (forall p, In p q -> in_vidx p (vidx vs) = true) ->
   let r1 := vporph verr fuel fin q vs in
   let r2 := porph fuel fin q s in
   Good (fst r1) /\ Sim (fst r1) (fst r2) /\ erel (snd r1) (snd r2).
 Proof.
-  induction fuel as [|f IH]; intros fin q vs s HG HS; cbv zeta; simpl.
+  induction fuel as [|f IH]; intros fin q vs s HG HS Hq; cbv zeta; simpl.
   { split; [exact HG | split; [exact HS | constructor]]. }
   destruct q as [|p q'].
   { simpl. split; [exact HG | split; [exact HS | constructor]]. }
   pose proof HS as [SA SB SC]. rewrite SB, first_child_proj.
-  destruct (first_vchild p (vorph vs)) as [c|] eqn:F; simpl option_map; cbv iota; [|apply IH; assumption].
-  assert (Hc : In c (vorph vs)) by (unfold first_vchild in F; apply find_some in F; tauto).
+  destruct (first_vchild p (vorph vs)) as [c|] eqn:F; simpl option_map; cbv iota.
+  2:{ apply IH; [exact HG | exact HS | intros x Hx; apply Hq; right; exact Hx]. }
+  assert (Hc : In c (vorph vs) /\ bpar (iblk c) = p).
+  { unfold first_vchild in F. apply find_some in F. destruct F as [F1 F2]. apply N.eqb_eq in F2. tauto. }
+  destruct Hc as [Hc Hcp].
   set (vs0 := mkV (vidx vs) (remove_vorph (ihash c) (vorph vs)) (vmain vs) (vstore vs)).
   set (s0 := mkS (idx s) (remove_orph (bid (iblk c)) (map iblk (vorph vs))) (main s) (evs s)).
   assert (G0 : Good vs0).
-  { apply Good_set_orph; [exact HG|]. intros x Hx. apply remove_vorph_in in Hx. destruct HG as [_ _ _ D _ _]. apply D; exact Hx. }
+  { apply Good_set_orph; [exact HG|]. intros x Hx. apply remove_vorph_in in Hx.
+    split; [apply (g_orph vs HG) | apply (g_orphB vs HG)]; exact Hx. }
   assert (S0 : Sim vs0 s0).
   { constructor; simpl; auto. apply remove_orph_proj. }
-  destruct (vaccept_sim fin vs0 s0 c G0 S0) as [G1 [S1 [_ E1]]].
-  { destruct HG as [_ _ _ D _ _]. apply D; exact Hc. }
+  destruct (vaccept_sim fin vs0 s0 c G0 S0) as [G1 [S1 [_ [E1 [C1 [[nd [I1 I2]] _]]]]]].
+  { apply (g_orph vs HG); exact Hc. }
+  { apply (g_orphB vs HG); exact Hc. }
+  { simpl. rewrite Hcp. apply Hq. left. reflexivity. }
   destruct (vaccept verr fin vs0 c) as [[vs1 m1] e1]. destruct (accept fin s0 (iblk c)) as [[s1 m2] e2].
-  simpl in G1, S1, E1.
-  inversion E1; subst; simpl; try (split; [exact G1 | split; [exact S1 | constructor]]).
-  apply IH; assumption.
+  simpl in G1, S1, E1, C1, I1.
+  destruct C1 as [C1|C1]; subst e1; inversion E1; subst; simpl.
+  - apply IH; [exact G1 | exact S1 |].
+    intros x Hx. rewrite I1.
+    assert (Hx2 : In x (bpar (iblk c) :: q') \/ x = ihash c).
+    { destruct Hx as [Hx|Hx]; [left; left; exact Hx|]. apply in_app_or in Hx.
+      destruct Hx as [Hx|[Hx|[]]]; [left; right; exact Hx | right; symmetry; exact Hx]. }
+    destruct Hx2 as [Hx2|Hx2].
+    + apply in_vidx_cons_mono. apply (Hq x Hx2).
+    + subst x. unfold in_vidx, find_vnode. simpl. rewrite I2, N.eqb_refl. reflexivity.
+  - split; [exact G1 | split; [exact S1 | constructor]].
 Qed.
 
 Lemma vdeliver_sim : forall fin vs s i,
-  Good vs -> Sim vs s -> ivalid i ->
+  Good vs -> Sim vs s -> ivalid i -> In (iblk i) BL ->
   Good (fst (vdeliver verr fin vs i)) /\ Sim (fst (vdeliver verr fin vs i)) (fst (deliver fin s (iblk i))).
 Proof.
-  intros fin vs s i HG HS Hv. unfold vdeliver, deliver.
+  intros fin vs s i HG HS Hv HiB. unfold vdeliver, deliver.
   pose proof HS as [SA SB SC]. rewrite SA, SB, !in_idx_proj, in_orph_proj.
   destruct (in_vidx (bid (iblk i)) (vidx vs)); [simpl; auto|].
   destruct (in_vorph (bid (iblk i)) (vorph vs) && negb (in_vidx (bpar (iblk i)) (vidx vs))); [simpl; auto|].
@@ -297,26 +365,30 @@ Proof.
              then mkS (map nproj (vidx vs)) (remove_orph (bid (iblk i)) (map iblk (vorph vs))) (main s) (evs s) else s).
   assert (G1 : Good vs1 /\ Sim vs1 s1).
   { unfold vs1, s1. destruct (in_vorph _ _); [|auto]. split.
-    - apply Good_set_orph; [exact HG|]. intros x Hx. apply remove_vorph_in in Hx. destruct HG as [_ _ _ D _ _]. apply D; exact Hx.
+    - apply Good_set_orph; [exact HG|]. intros x Hx. apply remove_vorph_in in Hx.
+      split; [apply (g_orph vs HG) | apply (g_orphB vs HG)]; exact Hx.
     - constructor; simpl; auto. apply remove_orph_proj. }
   destruct G1 as [G1 S1]. clearbody vs1 s1. pose proof S1 as [SA1 SB1 SC1].
   rewrite SA1, in_idx_proj.
-  destruct (negb (in_vidx (bpar (iblk i)) (vidx vs1))).
-  - simpl. split.
-    + apply Good_set_orph; [exact G1|]. intros x Hx. apply in_app_or in Hx.
-      destruct Hx as [Hx|[Hx|[]]]; [destruct G1 as [_ _ _ D _ _]; apply D; exact Hx | subst; exact Hv].
-    + constructor; simpl; auto. rewrite SB1, map_app. reflexivity.
-  - destruct (vaccept_sim fin vs1 s1 i G1 S1 Hv) as [G2 [S2 [_ E2]]].
+  destruct (in_vidx (bpar (iblk i)) (vidx vs1)) eqn:Hpar; simpl negb; cbv iota.
+  - destruct (vaccept_sim fin vs1 s1 i G1 S1 Hv HiB Hpar) as [G2 [S2 [_ [E2 [C2 [[nd [I1 I2]] _]]]]]].
     destruct (vaccept verr fin vs1 i) as [[vs2 m1] e1]. destruct (accept fin s1 (iblk i)) as [[s2 m2] e2].
-    simpl in G2, S2, E2.
-    inversion E2; subst; simpl; auto.
+    simpl in G2, S2, E2, C2, I1.
+    destruct C2 as [C2|C2]; subst e1; inversion E2; subst; simpl; auto.
     assert (Ef : vporph_fuel vs2 = porph_fuel s2).
     { unfold vporph_fuel, porph_fuel. destruct S2 as [_ B _]. rewrite B, map_length. reflexivity. }
     rewrite Ef.
     destruct (vporph_sim (porph_fuel s2) fin [bid (iblk i)] vs2 s2 G2 S2) as [G3 [S3 E3]].
+    { intros x [Hx|[]]. subst x. rewrite I1. unfold in_vidx, find_vnode. simpl. rewrite I2. unfold ihash. rewrite N.eqb_refl. reflexivity. }
     destruct (vporph verr (porph_fuel s2) fin [bid (iblk i)] vs2) as [vs3 e3].
     destruct (porph (porph_fuel s2) fin [bid (iblk i)] s2) as [s3 e4].
     simpl in G3, S3, E3. inversion E3; subst; simpl; auto.
+  - simpl. split.
+    + apply Good_set_orph; [exact G1|]. intros x Hx. apply in_app_or in Hx.
+      destruct Hx as [Hx|[Hx|[]]].
+      * split; [apply (g_orph vs1 G1) | apply (g_orphB vs1 G1)]; exact Hx.
+      * subst x. split; [exact Hv | exact HiB].
+    + constructor; simpl; auto. rewrite SB1, map_app. reflexivity.
 Qed.
 
 Lemma Good_init : Good (vinit g) /\ Sim (vinit g) (init g).
@@ -329,21 +401,24 @@ Proof.
     + intros o [].
     + intros h b [H|[]]. inversion H; subst. exact Hroot.
     + intros n [H|[]]; subst. unfold vid. simpl. rewrite sget_head. discriminate.
+    + intros h [H|[]]. subst h. unfold in_vidx, find_vnode. simpl. unfold vid. simpl. rewrite N.eqb_refl. reflexivity.
+    + intros n [H|[]]; subst. simpl. exact HgBL.
+    + intros o [].
   - constructor; reflexivity.
 Qed.
 
 Lemma valid_refines_gen : forall fin hist vs s,
-  Good vs -> Sim vs s -> (forall i, In i hist -> ivalid i) ->
+  Good vs -> Sim vs s -> (forall i, In i hist -> ivalid i /\ In (iblk i) BL) ->
   Sim (fold_left (vstep verr fin) hist vs) (fold_left (step fin) (map iblk hist) s).
 Proof.
   intros fin hist. induction hist as [|i hist IH]; intros vs s HG HS Hv; simpl; [exact HS|].
-  destruct (vdeliver_sim fin vs s i HG HS (Hv i (or_introl eq_refl))) as [G1 S1].
+  destruct (Hv i (or_introl eq_refl)) as [V1 V2].
+  destruct (vdeliver_sim fin vs s i HG HS V1 V2) as [G1 S1].
   apply IH; [exact G1 | exact S1 | intros; apply Hv; right; assumption].
 Qed.
 
-(** every delivered block valid: the best chain is C25's *)
-Lemma valid_refines_C25 : forall fin hist,
-  (forall i, In i hist -> verr (ihash i) (ibody i) = 0%N) ->
+Lemma valid_refines_sect : forall fin hist,
+  (forall i, In i hist -> ivalid i /\ In (iblk i) BL) ->
   vmain (vrun verr fin g hist) = main (run fin g (map iblk hist))
   /\ vtip (vrun verr fin g hist) = tip (run fin g (map iblk hist)).
 Proof.
@@ -353,3 +428,17 @@ Proof.
 Qed.
 
 End Refine.
+
+(** every delivered block valid, heights consistent: the best chain is C25's *)
+Lemma valid_refines_C25 : forall (verr : N -> N -> N) (g : block),
+  verr (bid g) 0%N = 0%N ->
+  forall (fin : Z) (hist : list item),
+    (forall i, In i hist -> verr (ihash i) (ibody i) = 0%N) ->
+    hconsb (g :: map iblk hist) = true ->
+    vmain (vrun verr fin g hist) = main (run fin g (map iblk hist))
+    /\ vtip (vrun verr fin g hist) = tip (run fin g (map iblk hist)).
+Proof.
+  intros verr g Hroot fin hist Hv Hc.
+  apply (valid_refines_sect verr g Hroot (g :: map iblk hist) (or_introl eq_refl) (hconsb_spec _ Hc)).
+  intros i Hi. split; [apply Hv; exact Hi | right; apply in_map; exact Hi].
+Qed.
